@@ -78,6 +78,26 @@ def hidden_procedure_namelist():
     return None
 
 
+def module_procedure_body():
+    """the body of a separate module procedure written as `module procedure name ... end procedure` is a procedure too: with proc_internals off its locals are not shown"""
+    text = ("module par\n  implicit none\n  interface\n    module subroutine work(n)\n      integer, intent(in) :: n\n    end subroutine work\n  end interface\nend module par\n"
+            "submodule (par) impl\ncontains\n  module procedure work\n    !! implementation\n    integer :: local_counter\n      !! a local\n    type :: local_t\n      integer :: c\n    end type local_t\n"
+            "  contains\n    subroutine inner()\n      !! inner\n    end subroutine inner\n  end procedure work\nend submodule impl\n")
+    for st in (dict(display=["public", "private", "protected"], proc_internals=False),):
+        proj = realrun.build_project({"src/m.f90": text}, **st)
+        bad = check_project(proj, False)
+        sub = proj.submodules[0]
+        for mp in getattr(sub, "modprocedures", []):
+            for l in ("variables", "types", "subroutines", "functions"):
+                left = [getattr(x, "name", "") for x in getattr(mp, l, [])]
+                if left:
+                    bad.append((type(mp).__name__, mp.name, l, left, "internals of a module-procedure body shown although proc_internals is off"))
+        if bad:
+            return {"confirmed": True, "input": {"source": text, "settings": st}, "actual": bad[:3], "expected": "locals of the `module procedure` body are not listed",
+                    "how": "real pipeline; child lists of the FortranModuleProcedureImplementation after prune"}
+    return None
+
+
 def cases():
     for pd, ep, doc, inproc in itertools.product(["", "private"], ["", "private", "public"], [True, False], [False, True]):
         for display in (["public", "protected"], ["private"], ["public", "private", "protected"]):
@@ -89,7 +109,7 @@ def cases():
 
 
 def search(limit=None):
-    hit = hidden_procedure_namelist()
+    hit = hidden_procedure_namelist() or module_procedure_body()
     if hit:
         return hit
     n = 0
